@@ -170,3 +170,12 @@ Theorem C01_solver_model_decided : forall U P, WF U -> forall A a_ge a_conflict 
   forall c p r cands, In c (s_db st) -> ck c = KRequires p r cands -> lit_istrue (tr_lits st) (p, true) = true ->
     concat cands = [] \/ exists x, In x (concat cands) /\ pval (tr_lits st) (VSol x) = Some true.
 Proof. exact solve_sat_decided. Qed.
+
+(* every clause of the model's database is looked after -- watched, registered as an assertion / unit on a
+   literal it consists of, or the root clause (Cdcl/SolverCover.v) -- so the statement covers the whole
+   database: the trail a solution of a problem without soft requirements is read from falsifies NO clause *)
+From Resolvo Require Import Cdcl.SolverCover.
+Theorem C01_solver_model_no_clause_falsified : forall U P, WF U -> forall A a_ge a_conflict fuel efuel (a0 : A) order sol st,
+  solve U P a_ge a_conflict fuel efuel a0 order = (OSat sol, st) -> pr_soft P = [] ->
+  forall id c, nth_error (s_db st) (N.to_nat id) = Some c -> falsified (ps_trail (s_ps st)) (cl_lits c) = false.
+Proof. exact solve_sat_no_clause_falsified. Qed.
